@@ -115,14 +115,22 @@ def conclude(pid, tier, seed, reg, spec, keys, fn_infos, problems, jobs, results
     fns = []
     for info in fn_infos:
         c = contracts[info["key"]]
+        mine = [r for r in results if r.get("fn") == info["key"] and not r["cover"]]
         fns.append(dict(contract=info["key"], function=f"{c.module}:{c.qualname}" if c.module else "(lemma)",
-                        source_sha=info["hash"], status="lemma" if c.is_lemma else "under-contract",
+                        source_sha=info["hash"], view=("string" if info.get("string_view_fallback") or c.view == "string" else "names-uninterpreted"),
+                        status=("lemma-" if c.is_lemma else "") + ("proved" if mine and all(r["verdict"] == "proved" for r in mine) else "not-proved"),
                         paths=info["paths"], inlined_helpers=info["inlined"], axiom_schemas_used=info["used_schemas"],
                         obligations=sum(1 for j in jobs if j["fn"] == info["key"] and not j["cover"])))
+    # assumed / abstract / bounded contracts that THIS property's proofs actually apply at some call site (its verification cone)
+    cone = set()
+    for info in fn_infos:
+        cone.update(info.get("callees", []))
     assumed = []
     for k, c in sorted(contracts.items()):
-        if c.status != "verify" and not c.is_lemma:
+        if k in cone and c.status != "verify" and not c.is_lemma:
             assumed.append(f"{c.status}: {k}" + (f" -- {c.note}" if c.note else ""))
+    schemas = sorted({u.split("(")[0] for info in fn_infos for u in info.get("used_schemas", []) if u.split("(")[0] in reg.schemas})
+    assumed += [f"axiom schema: {sname} -- {(reg.specfuns[sname].__doc__ or '').strip().splitlines()[0] if reg.specfuns.get(sname) and reg.specfuns[sname].__doc__ else ''}" for sname in schemas]
     samples = []
     for r in (proved[:2] + refuted[:2] + unknown[:1]):
         j = by_name.get(r["name"], {})
